@@ -222,3 +222,113 @@ Lemma abytes_init n : abytes (repeat None n).
 Proof.
   intros i l H. exfalso. revert i H. induction n; intros [|i] H; cbn in H; try discriminate. eauto.
 Qed.
+
+(* ---- final round: items as atoi reads them: white space, leading zeros, a value, then anything that
+   does not start with a digit (trailing blanks, a stop character) *)
+Inductive gitem :=
+| GBlank (lead : list N)                                   (* only white space (or nothing): a dropped zero *)
+| GNum (lead : list N) (zeros : nat) (v : N) (trail : list N).   (* "  007x" *)
+
+Definition starts_nondigit (t : list N) : bool := match t with [] => true | c :: _ => negb (is_digit c) end.
+Definition gitem_ok (it : gitem) : bool :=
+  match it with
+  | GBlank lead => forallb is_space lead
+  | GNum lead zeros v trail => forallb is_space lead && (v <? 256) && starts_nondigit trail && nocomma trail
+  end.
+Definition gitem_text (it : gitem) : list N :=
+  match it with
+  | GBlank lead => lead
+  | GNum lead zeros v trail => lead ++ repeat 48 zeros ++ dec v ++ trail
+  end.
+Definition gitem_val (it : gitem) : N := match it with GBlank _ => 0 | GNum _ _ v _ => v end.
+
+Lemma skip_ws_app lead r : forallb is_space lead = true -> skip_ws (lead ++ r) = skip_ws r.
+Proof.
+  induction lead as [|c l IH]; intros H; auto. cbn in H. apply andb_prop in H as (Hc & Hl).
+  cbn [app skip_ws]. rewrite Hc. auto.
+Qed.
+Lemma space_nocomma lead : forallb is_space lead = true -> nocomma lead = true.
+Proof.
+  unfold nocomma. induction lead as [|c l IH]; intros H; auto. cbn [forallb] in *.
+  apply andb_prop in H as (Hc & Hl). rewrite IH by auto. rewrite andb_true_r. unfold is_space in Hc.
+  destruct (N.eqb_spec c 44) as [->|]; [discriminate|reflexivity].
+Qed.
+Lemma nocomma_app a b : nocomma (a ++ b) = nocomma a && nocomma b.
+Proof. apply forallb_app. Qed.
+Lemma nocomma_zeros z : nocomma (repeat 48 z) = true.
+Proof. induction z; cbn; auto. Qed.
+
+Lemma digits_val_app ds : forall acc t,
+  forallb is_digit ds = true -> digits_val acc (ds ++ t) = digits_val (digits_val acc ds) t.
+Proof.
+  induction ds as [|c ds IH]; intros acc t H; auto. cbn in H. apply andb_prop in H as (Hc & Hd).
+  cbn [app digits_val]. rewrite Hc. auto.
+Qed.
+Lemma digits_val_stop acc t : starts_nondigit t = true -> digits_val acc t = acc.
+Proof. destruct t as [|c r]; auto. cbn. destruct (is_digit c); [discriminate|reflexivity]. Qed.
+Lemma digits_val_zeros z : forall r, digits_val 0 (repeat 48 z ++ r) = digits_val 0 r.
+Proof. induction z; intros r; auto. cbn [repeat app digits_val]. change (is_digit 48) with true. cbn. auto. Qed.
+
+Lemma dec_digits_all :
+  forallb (fun x => forallb is_digit (dec x) && (digits_val 0 (dec x) =? x)) all_bytes = true.
+Proof. vm_compute. reflexivity. Qed.
+Lemma dec_digits x : x < 256 -> forallb is_digit (dec x) = true /\ digits_val 0 (dec x) = x.
+Proof.
+  intros H. pose proof dec_digits_all as A. rewrite forallb_forall in A. specialize (A x (in_all_bytes x H)).
+  apply andb_prop in A as (A1 & A2). apply N.eqb_eq in A2. auto.
+Qed.
+
+(* a token whose first non-blank character is a digit is read as an unsigned number *)
+Lemma atoi8_unsigned d r :
+  is_digit d = true -> atoi8 (d :: r) = (N.min (digits_val 0 (d :: r)) LONG_MAX) mod 256.
+Proof.
+  intros Hd. unfold atoi8. assert (Hs : is_space d = false).
+  { unfold is_digit, is_space in *. lia. }
+  cbn [skip_ws]. rewrite Hs.
+  assert (d <> 45 /\ d <> 43) as (H1 & H2) by (unfold is_digit in Hd; lia).
+  destruct d as [|p]; [reflexivity|].
+  do 6 (destruct p as [p|p|]; try reflexivity; try congruence).
+Qed.
+
+Lemma gitem_facts it :
+  gitem_ok it = true -> atoi8 (gitem_text it) = gitem_val it /\ nocomma (gitem_text it) = true.
+Proof.
+  destruct it as [lead|lead zeros v trail]; cbn [gitem_ok gitem_text gitem_val]; intros H.
+  - split; [|apply space_nocomma; auto].
+    unfold atoi8. rewrite <- (app_nil_r lead), skip_ws_app by auto. reflexivity.
+  - apply andb_prop in H as (H & Hnc). apply andb_prop in H as (H & Hst). apply andb_prop in H as (Hl & Hv).
+    apply N.ltb_lt in Hv. destruct (dec_digits v Hv) as (Dd & Dv). destruct (dec_facts v Hv) as (_ & Dnc & Dne).
+    split.
+    + assert (Ev : digits_val 0 (repeat 48 zeros ++ dec v ++ trail) = v).
+      { rewrite digits_val_zeros, digits_val_app by auto. rewrite Dv. apply digits_val_stop. auto. }
+      unfold atoi8 at 1. rewrite skip_ws_app by auto. fold (atoi8 (repeat 48 zeros ++ dec v ++ trail)).
+      destruct (repeat 48 zeros ++ dec v ++ trail) as [|d r] eqn:E.
+      { destruct zeros; cbn in E; [|discriminate]. destruct (dec v); [congruence|discriminate]. }
+      assert (Hd : is_digit d = true).
+      { destruct zeros as [|z]; cbn in E.
+        - destruct (dec v) as [|c ds] eqn:Ed; [congruence|]. cbn in E. inversion E; subst.
+          cbn in Dd. apply andb_prop in Dd as (Dc & _). exact Dc.
+        - inversion E; subst. reflexivity. }
+      assert (Hs : is_space d = false) by (unfold is_digit, is_space in *; lia).
+      change (match skip_ws (d :: r) with
+              | 45 :: r0 => (256 - N.min (digits_val 0 r0) (LONG_MAX + 1) mod 256) mod 256
+              | 43 :: r0 => N.min (digits_val 0 r0) LONG_MAX mod 256
+              | l => N.min (digits_val 0 l) LONG_MAX mod 256 end) with (atoi8 (d :: r)).
+      rewrite atoi8_unsigned by auto. rewrite Ev. unfold LONG_MAX.
+      rewrite N.min_l by lia. apply N.mod_small. lia.
+    + rewrite !nocomma_app, space_nocomma, nocomma_zeros, Dnc, Hnc by auto. reflexivity.
+Qed.
+
+Lemma sfs_documented_general items :
+  forallb gitem_ok items = true -> join_items (map gitem_text items) <> [] ->
+  sfs_values (join_items (map gitem_text items)) = map gitem_val items.
+Proof.
+  intros Hok Hne. unfold sfs_values.
+  destruct (join_items (map gitem_text items)) as [|c r] eqn:E; [congruence|]. rewrite <- E.
+  assert (Hnn : map gitem_text items <> []). { destruct items; [cbn in E; discriminate|discriminate]. }
+  rewrite split_join; auto.
+  - rewrite map_map. apply map_ext_in. intros it Hin. rewrite forallb_forall in Hok.
+    apply (gitem_facts it (Hok it Hin)).
+  - rewrite forallb_forall. intros t Ht. apply in_map_iff in Ht as (it & <- & Hin).
+    rewrite forallb_forall in Hok. apply (gitem_facts it (Hok it Hin)).
+Qed.
